@@ -8,6 +8,7 @@ import (
 	"fmt"
 	gotoken "go/token"
 	"os"
+	"path/filepath"
 	"regexp"
 	"strings"
 	"testing"
@@ -199,6 +200,35 @@ func TestCompile(t *testing.T) {
 			}
 		case 1:
 			entry = "buildfsdir"
+		}
+		if entry != "cl" {
+			// the build helpers are also asked for files and directories they have nothing to compile
+			// in: ignored names (leading underscore), unknown or missing extensions, an empty directory
+			switch rapid.IntRange(0, 11).Draw(t, "names") {
+			case 0, 1, 2, 3:
+				files := map[string]string{}
+				how := rapid.IntRange(0, 3).Draw(t, "rename")
+				for n, src := range p.Files {
+					switch how {
+					case 0:
+						n = "_" + n
+					case 1:
+						n = strings.TrimSuffix(n, filepath.Ext(n)) + ".txt"
+					case 2:
+						n = strings.TrimSuffix(n, filepath.Ext(n))
+					default:
+						n = "gop_autogen_" + strings.TrimSuffix(n, filepath.Ext(n)) + ".go"
+					}
+					files[n] = src
+				}
+				p.Files = files
+				p.Kind += "+odd-names"
+			case 4:
+				if entry == "buildfsdir" {
+					p.Files = map[string]string{}
+					p.Kind = "empty-directory"
+				}
+			}
 		}
 		c := Case{Files: p.Files, Entry: entry}
 		var in info
